@@ -400,7 +400,7 @@ def finish(mod, tier, seed, results, twin_res, not_reached, t0):
         functions_encoded=mod.FUNCTIONS,
         bounds=mod.BOUNDS[tier] if isinstance(mod.BOUNDS, dict) else mod.BOUNDS,
         stubs=getattr(mod, 'STUBS', []),
-        solver=dict(name='z3 (python API) + cvc5 cross-check of a subset', z3=_z3_version(),
+        solver=dict(name=getattr(mod, 'SOLVER_NAME', 'z3 (python API) + cvc5 cross-check of a subset'), z3=_z3_version(),
                     total_s=round(solver_s, 3),
                     max_s=round(max([r.get('solver_max_s', r.get('solver_s', 0.0)) for r in results] or [0.0]), 3),
                     cvc5_cross_checked=sum(r.get('cvc5_checked', 0) for r in results),
